@@ -12,7 +12,9 @@ import (
 	"verifharness/core"
 )
 
-func init() { core.Register(core.Check{ID: "C14", Level: "exploration", Run: runC14}) }
+func init() {
+	core.Register(core.Check{ID: "C14", Level: "exploration", Run: func(c *core.Ctx) { runC14(c); reentrancyPass(c, "C14") }})
+}
 
 // ---- reference (digit by digit, shares nothing with the repository) ----
 
